@@ -268,38 +268,38 @@ fn table_checks(r: &mut Rep) {
             r.ev(true);
             let case = format!("table iter adapters k={}", k);
             let exp_skip: Vec<u64> = want.iter().copied().skip(k).collect();
-            let a1 = catch(|| t.iter().skip(k).map(raw).collect::<Vec<u64>>());
-            let a2 = catch(|| t.iter_mut().skip(k).map(|e| raw(e)).collect::<Vec<u64>>());
+            let a1 = catch(|| t.iter().skip(k).take(1024).map(raw).collect::<Vec<u64>>());
+            let a2 = catch(|| t.iter_mut().skip(k).take(1024).map(|e| raw(e)).collect::<Vec<u64>>());
             if a1 != Ok(exp_skip.clone()) || a2 != Ok(exp_skip.clone()) {
                 r.viol("C08|PageTable::iter/iter_mut|skip-yields-other-slots-than-indexing", &case, "");
             }
-            let n1 = catch(|| { let mut it = t.iter(); let x = it.nth(k).map(raw); (x, it.next().map(raw), it.count()) });
-            let n2 = catch(|| { let mut it = t.iter_mut(); let x = it.nth(k).map(|e| raw(e)); (x, it.next().map(|e| raw(e)), it.count()) });
+            let n1 = catch(|| { let mut it = t.iter(); let x = it.nth(k).map(raw); (x, it.next().map(raw), it.take(1024).count()) });
+            let n2 = catch(|| { let mut it = t.iter_mut(); let x = it.nth(k).map(|e| raw(e)); (x, it.next().map(|e| raw(e)), it.take(1024).count()) });
             let en = (want.get(k).copied(), k.checked_add(1).and_then(|j| want.get(j)).copied(), 512usize.saturating_sub(k.saturating_add(2)));
             if n1 != Ok(en) || n2 != Ok(en) {
                 r.viol("C08|PageTable::iter/iter_mut|nth-then-next-yields-other-slots-than-indexing", &case, &format!("{:x?} {:x?} expected {:x?}", n1, n2, en));
             }
             if k >= 1 {
                 let es: Vec<u64> = want.iter().copied().step_by(k).collect();
-                if catch(|| t.iter().step_by(k).map(raw).collect::<Vec<u64>>()) != Ok(es.clone()) || catch(|| t.iter_mut().step_by(k).map(|e| raw(e)).collect::<Vec<u64>>()) != Ok(es) {
+                if catch(|| t.iter().step_by(k).take(1024).map(raw).collect::<Vec<u64>>()) != Ok(es.clone()) || catch(|| t.iter_mut().step_by(k).take(1024).map(|e| raw(e)).collect::<Vec<u64>>()) != Ok(es) {
                     r.viol("C08|PageTable::iter/iter_mut|step_by-yields-other-slots-than-indexing", &case, "");
                 }
             }
             // the shape clean-up uses: enumerate().take(end + 1).skip(start)
             if k < 512 {
                 let e2: Vec<(usize, u64)> = (k..=(k + 7).min(511)).map(|i| (i, want[i])).collect();
-                let g1 = catch(|| t.iter().enumerate().take((k + 7).min(511) + 1).skip(k).map(|(i, e)| (i, raw(e))).collect::<Vec<_>>());
-                let g2 = catch(|| t.iter_mut().enumerate().take((k + 7).min(511) + 1).skip(k).map(|(i, e)| (i, raw(e))).collect::<Vec<_>>());
+                let g1 = catch(|| t.iter().enumerate().take((k + 7).min(511) + 1).skip(k).take(1024).map(|(i, e)| (i, raw(e))).collect::<Vec<_>>());
+                let g2 = catch(|| t.iter_mut().enumerate().take((k + 7).min(511) + 1).skip(k).take(1024).map(|(i, e)| (i, raw(e))).collect::<Vec<_>>());
                 if g1 != Ok(e2.clone()) || g2 != Ok(e2) {
                     r.viol("C08|PageTable::iter/iter_mut|enumerate-take-skip-pairs-indices-with-other-slots", &case, "");
                 }
             }
         }
-        let h1 = catch(|| (t.iter().size_hint(), t.iter().count(), t.iter().last().map(raw)));
+        let h1 = catch(|| (t.iter().size_hint(), t.iter().take(1024).count(), t.iter().take(1024).last().map(raw)));
         let h2 = catch(|| {
             let a = t.iter_mut().size_hint();
-            let b = t.iter_mut().count();
-            let c = t.iter_mut().last().map(|e| raw(e));
+            let b = t.iter_mut().take(1024).count();
+            let c = t.iter_mut().take(1024).last().map(|e| raw(e));
             (a, b, c)
         });
         for h in [h1, h2] {
@@ -309,7 +309,7 @@ fn table_checks(r: &mut Rep) {
             }
         }
         // writes through adapted iter_mut land in the slots indexing reads
-        let _ = catch(|| { for (i, e) in t.iter_mut().skip(5).step_by(3).enumerate() { e.set_addr(PhysAddr::new(0x10_0000 + 0x1000 * i as u64), F::from_bits_retain(3)); } });
+        let _ = catch(|| { for (i, e) in t.iter_mut().skip(5).step_by(3).take(1024).enumerate() { e.set_addr(PhysAddr::new(0x10_0000 + 0x1000 * i as u64), F::from_bits_retain(3)); } });
         for i in 0..512usize {
             let exp = if i >= 5 && (i - 5) % 3 == 0 { (0x10_0000 + 0x1000 * ((i - 5) / 3) as u64) | 3 } else { want[i] };
             if raw(&t[i]) != exp {
